@@ -32,6 +32,8 @@ def run(ctx: Ctx):
     ctx.attempt(split, ctx)
     ctx.attempt(leaving, ctx)
     ctx.attempt(arrival_enterable, ctx)
+    from . import c02 as _c02
+    ctx.attempt(_c02.stall_test, ctx)  # the test the arrival at a base relies on
     # continuity at the start of a journey: move() drives a route from the route's own first link, so a travelling activity may only be
     # entered with a route that begins at the vehicle's cell — the entry guard of each such activity, and the validator it relies on
     from .. import guards
